@@ -168,9 +168,11 @@ func (ent *entityNode) innerRef(name string) *schema_j5pb.Field {
 func (ent *entityNode) findStatus(end string) (string, bool) {
 	for _, status := range ent.Schema.Status {
 		if status.Name == end {
+			// the option of the status enum: its prefix, then the name as
+			// declared (not re-cased: PHASE2 is not PHASE_2)
 			return fmt.Sprintf("%s_STATUS_%s",
 				strcase.ToScreamingSnake(ent.Schema.Name),
-				strcase.ToScreamingSnake(status.Name),
+				status.Name,
 			), true
 		}
 	}
